@@ -2,7 +2,8 @@
 
 From scrapli/logging.py (AST): the two `log_format` strings of ScrapliFormatter.__init__ (parsed with
 string.Formatter into literal/field/fill/width pieces), the header record constants, the truncation
-constants of formatMessage (target 25/22, module & funcName 20/17, the "..." suffix), the "read: " prefix the
+constants of formatMessage (target 25/22, module & funcName 20/17, the "..." suffix; measured on the live
+ScrapliFormatter when formatMessage does not spell the conditional expression out), the "read: " prefix the
 handler tests for and the literal head of the coalesced message (f"read : {…!r}"), enable_basic_logging's
 mode table and default file name.
 From scrapli/channel/{sync,async}_channel.py read() and base_channel.py write()/open() (AST): the log call
@@ -148,6 +149,53 @@ def _truncations(fn, rel):
     return out
 
 
+def _truncations_probe():
+    """the same table measured on the live class (used when the source no longer spells the truncation as the
+    conditional expression above, e.g. after it was moved into a helper): format probe records whose target /
+    module / funcName have every length 0..89 (pairwise distinct characters) through the real
+    ScrapliFormatter.formatMessage and read the three attributes back.  Accepted only if, for every length, the
+    result is the input itself up to some limit and input[:keep] + one fixed suffix above it."""
+    import logging as _logging
+    from vlib.common import use_repo
+    use_repo()
+    from scrapli.logging import ScrapliFormatter
+    fmt = ScrapliFormatter(log_header=False, caller_info=True)
+    top = 90
+
+    def text(n):
+        return "".join(chr(0x4E00 + i) for i in range(n))
+    seen = {"target": [], "module": [], "funcName": []}
+    for n in range(top):
+        rec = _logging.LogRecord("scrapli.translate", 20, "probe.py", 1, "m", None, None, func=text(n))
+        rec.module, rec.message, rec.asctime = text(n), "m", "t"
+        if n:
+            rec.host, rec.port = text(n - 1), ""       # target = host + ":" has length n
+        try:
+            fmt.formatMessage(rec)
+        except Exception as e:
+            raise TranslateError(f"{LOGGING}: truncation probe: formatMessage raised {e!r} at length {n}")
+        seen["target"].append(((text(n - 1) + ":") if n else "", rec.target))
+        seen["module"].append((text(n), rec.module))
+        seen["funcName"].append((text(n), rec.funcName))
+    out = {}
+    for k, pairs in seen.items():
+        limit = -1
+        while limit + 1 < top and pairs[limit + 1][0] == pairs[limit + 1][1]:
+            limit += 1
+        if limit < 0 or limit + 2 >= top:
+            raise TranslateError(f"{LOGGING}: truncation probe: no cut point for record.{k} below length {top}")
+        i, o = pairs[limit + 1]
+        keep = 0
+        while keep < min(len(i), len(o)) and i[keep] == o[keep]:
+            keep += 1
+        suf = o[keep:]
+        for i, o in pairs[limit + 1:]:
+            if o != i[:keep] + suf:
+                raise TranslateError(f"{LOGGING}: truncation probe: record.{k} of length {len(i)} is not input[:{keep}] + {suf!r}")
+        out[k] = (limit, limit, keep, suf)
+    return out
+
+
 def _logger_calls(fn):
     """[(method, [arg nodes])] of `self.logger.<method>(...)` calls in fn, in source order"""
     calls = []
@@ -168,9 +216,11 @@ def _read_site(rel, cls):
     logged = calls[0][1][1].id
     # buf = buf.replace(b"\r", b"")
     repl = None
-    for n in ast.walk(fn):
-        if isinstance(n, ast.Call) and isinstance(n.func, ast.Attribute) and n.func.attr == "replace" \
-                and isinstance(n.func.value, ast.Name) and n.func.value.id == logged:
+    replaces = [n for n in ast.walk(fn) if isinstance(n, ast.Call) and isinstance(n.func, ast.Attribute) and n.func.attr in ("replace", "translate")]
+    if len(replaces) != 1:      # a second (possibly chained) replace would strip a byte the model does not know about
+        raise TranslateError(f"{rel}: {cls}.read: expected exactly one .replace() call, found {len(replaces)}")
+    for n in replaces:
+        if n.func.attr == "replace" and isinstance(n.func.value, ast.Name) and n.func.value.id == logged:
             repl = tuple(_const_eval(a, rel) for a in n.args)
     if repl is None or len(repl) != 2 or not all(isinstance(x, bytes) for x in repl) or len(repl[0]) != 1 or repl[1] != b"":
         raise TranslateError(f"{rel}: {cls}.read: expected `{logged}.replace(<one byte>, b\"\")`, got {repl!r}")
@@ -179,6 +229,18 @@ def _read_site(rel, cls):
              and _is_attr(n.func.value, "self", "channel_log")]
     if len(wrote) != 1 or len(wrote[0].args) != 1 or not isinstance(wrote[0].args[0], ast.Name) or wrote[0].args[0].id != logged:
         raise TranslateError(f"{rel}: {cls}.read: expected exactly one self.channel_log.write({logged})")
+    # statement order: strip the byte, then log, then write the channel log; nothing may rebind the name in between
+    log_call = [n for n in ast.walk(fn) if isinstance(n, ast.Call) and isinstance(n.func, ast.Attribute) and _is_attr(n.func.value, "self", "logger")][0]
+    if not replaces[0].lineno < log_call.lineno < wrote[0].lineno:
+        raise TranslateError(f"{rel}: {cls}.read: expected the order replace -> logger.debug -> channel_log.write")
+    rebinds = [n.lineno for n in ast.walk(fn) if isinstance(n, ast.Assign) and any(isinstance(t, ast.Name) and t.id == logged for t in n.targets)]
+    if any(replaces[0].lineno < ln <= wrote[0].lineno for ln in rebinds):
+        raise TranslateError(f"{rel}: {cls}.read: `{logged}` is reassigned between the CR removal and the channel log write")
+    # the channel log is written nowhere else in the module
+    everywhere = [n for n in ast.walk(_parse(rel)) if isinstance(n, ast.Call) and isinstance(n.func, ast.Attribute) and n.func.attr in ("write", "writelines")
+                  and isinstance(n.func.value, ast.Attribute) and n.func.value.attr == "channel_log"]
+    if len(everywhere) != 1:
+        raise TranslateError(f"{rel}: the channel log is written at {len(everywhere)} places, expected only {cls}.read")
     return tmpl, repl[0][0]
 
 
@@ -223,10 +285,12 @@ def generate():
     for k in need:
         if not isinstance(hdr.get(k), str):
             raise TranslateError(f"{LOGGING}: header field {k} is not a str constant: {hdr.get(k)!r}")
-    tr = _truncations(fm, LOGGING)
-    for k in ("target", "module", "funcName"):
-        if k not in tr:
-            raise TranslateError(f"{LOGGING}: no truncation expression for record.{k}")
+    try:
+        tr = _truncations(fm, LOGGING)
+    except TranslateError:
+        tr = {}
+    if not all(k in tr for k in ("target", "module", "funcName")):
+        tr = _truncations_probe()     # not spelled out in formatMessage (helper function, ...): measure it
     if tr["module"] != tr["funcName"]:
         raise TranslateError(f"{LOGGING}: module and funcName are truncated differently: {tr['module']} vs {tr['funcName']}")
     for k, (a, limit, keep, suf) in tr.items():
@@ -256,6 +320,10 @@ def generate():
     ebl = _func(tree, "enable_basic_logging", LOGGING)
     modes, fmode, dflt = None, None, None
     for n in ast.walk(ebl):
+        if isinstance(n, ast.Compare) and isinstance(n.left, ast.Call) and not (
+                isinstance(n.left.func, ast.Attribute) and n.left.func.attr == "lower" and isinstance(n.left.func.value, ast.Name)
+                and n.left.func.value.id == "mode" and not n.left.args):
+            raise TranslateError(f"{LOGGING}:{n.lineno}: enable_basic_logging compares something other than mode.lower() (the model lowers ASCII case)")
         if isinstance(n, ast.Compare) and len(n.ops) == 1 and isinstance(n.ops[0], ast.NotIn):
             modes = _const_eval(n.comparators[0], LOGGING)
         if isinstance(n, ast.Assign) and isinstance(n.targets[0], ast.Name) and n.targets[0].id == "file_mode" and isinstance(n.value, ast.IfExp):
@@ -274,6 +342,10 @@ def generate():
     if (rs, cr_s) != (ra, cr_a):
         raise TranslateError(f"sync and async Channel.read differ: {(rs, cr_s)!r} vs {(ra, cr_a)!r}")
     bcls = _cls(_parse(BASE), "BaseChannel", BASE)
+    stray = [n.lineno for n in ast.walk(_parse(BASE)) if isinstance(n, ast.Call) and isinstance(n.func, ast.Attribute)
+             and n.func.attr in ("write", "writelines") and isinstance(n.func.value, ast.Attribute) and n.func.value.attr == "channel_log"]
+    if stray:
+        raise TranslateError(f"{BASE}: the channel log is written outside Channel.read / AsyncChannel.read (lines {stray})")
     wcalls = _logger_calls(_func(bcls, "write", BASE))
     if len(wcalls) != 2 or any(m != "debug" for m, _ in wcalls):
         raise TranslateError(f"{BASE}: BaseChannel.write: expected two self.logger.debug calls (redacted, plain)")
